@@ -1,11 +1,12 @@
-(** Boolean checker of the read-path invariants: [tier_inv_b s = true] implies
+(** Boolean checker of the read-path invariants: [tier_inv_b s = true] iff
     [src_inv s] (sorted sources, disjoint main tables, positive versions) and
-    [tier_inv (tiers_of s)] (recency order of the tiers) — the premises of
-    [get_is_tget] / [tget_latest] / [get_latest].  Pairwise (quadratic) checks;
-    meant for [vm_compute] on replayed states. *)
+    [scan_inv (scan_srcs s)] (copies of one internal key most-recent-first in
+    scan order) — the premises of [get_is_flat] / [get_latest].  Pairwise
+    (quadratic) checks; meant for [vm_compute] on replayed states.
+    ([tiers_b] still decides the stronger tiered invariant [tier_inv].) *)
 From Coq Require Import List NArith Bool Lia Sorting.Sorted.
 From NoKV Require Import Base.Bytes Model.Lsm Spec.MvccSpec Proofs.LsmOrder Spec.LsmSpec
-     Proofs.LsmRead Proofs.LsmGet Proofs.LsmInv Proofs.LsmWitness.
+     Proofs.LsmRead Proofs.LsmGet Proofs.LsmMain Proofs.LsmInv Proofs.LsmWitness.
 Import ListNotations.
 Local Open Scope N_scope.
 
@@ -60,7 +61,7 @@ Definition src_b (s : state) : bool :=
   sortedb (st_mem s) && forallb (fun m => sortedb (snd m)) (st_imms s)
   && forallb tbl_sortedb (st_l0 s) && forallb level_b (st_lvls s).
 
-Definition tier_inv_b (s : state) : bool := src_b s && tiers_b (tiers_of s).
+Definition tier_inv_b (s : state) : bool := src_b s && tier_ok_b (scan_srcs s).
 
 (** * Soundness *)
 Lemma sortedb_sound l : sortedb l = true -> sorted l.
@@ -141,15 +142,15 @@ Proof.
   - now apply main_disjoint_b_sound.
 Qed.
 
-Theorem tier_inv_b_sound s : tier_inv_b s = true -> src_inv s /\ tier_inv (tiers_of s).
+Theorem tier_inv_b_sound s : tier_inv_b s = true -> src_inv s /\ scan_inv (scan_srcs s).
 Proof.
   unfold tier_inv_b, src_b. rewrite !andb_true_iff. intros [[[[H1 H2] H3] H4] H5].
-  pose proof (tiers_b_sound _ H5) as Ht. split; [|exact Ht]. constructor.
+  pose proof (tier_ok_b_sound _ H5) as Ht. split; [|exact Ht]. constructor.
   - now apply sortedb_sound.
   - eapply forallb_Forall; [|exact H2]. intros m. apply sortedb_sound.
   - eapply forallb_Forall; [|exact H3]. exact tbl_sortedb_sound.
   - eapply forallb_Forall; [|exact H4]. exact level_b_sound.
-  - exact (ti_pos _ Ht).
+  - exact (proj1 (proj2 Ht)).
 Qed.
 
 (** With the history: the checker plus [content_ok] give the read theorem. *)
@@ -161,13 +162,8 @@ Corollary tier_inv_b_reads s ws k v :
   is_latest ws k v (get s k v).
 Proof.
   intros Hb H1 H2 Hf. apply tier_inv_b_sound in Hb as [Hs Ht].
-  rewrite (get_is_tget s k v Hs). pose proof (tget_latest k v _ Ht) as Hl.
-  destruct (tget k v (tiers_of s)) as [x|]; cbn [is_latest] in *.
-  - destruct Hl as (Hin & Hc & Hb). split; [auto|]. split; [exact Hc|].
-    intros y Hy [Hyk Hyv]. destruct (H2 y Hy) as (x' & Hx' & Ek & Ev & Hg).
-    eapply geq_trans; [|exact Hg]. apply Hb; [exact Hx'|]. split; [congruence | lia].
-  - intros y Hy [Hyk Hyv]. destruct (H2 y Hy) as (x' & Hx' & Ek & Ev & _).
-    apply (Hl x' Hx'). split; [congruence | lia].
+  rewrite (get_is_flat s k v Hs). eapply is_latest_transfer; [split; [exact H1 | exact H2]|].
+  change (all_recs (tiers_of s)) with (concat (scan_srcs s)). now apply scan_latest.
 Qed.
 
 (** * Completeness: the checker decides the invariants *)
@@ -240,23 +236,24 @@ Proof.
   - eapply Forall_forallb; [|exact H2]. intros t. apply sortedb_complete.
 Qed.
 
-Theorem tier_inv_b_complete s : src_inv s -> tier_inv (tiers_of s) -> tier_inv_b s = true.
+Theorem tier_inv_b_complete s : src_inv s -> scan_inv (scan_srcs s) -> tier_inv_b s = true.
 Proof.
-  intros [H1 H2 H3 H4 _] Ht. unfold tier_inv_b, src_b. rewrite (tiers_b_complete _ Ht), (sortedb_complete _ H1).
+  intros [H1 H2 H3 H4 _] Ht. unfold tier_inv_b, src_b. rewrite (tier_ok_b_complete _ Ht), (sortedb_complete _ H1).
   rewrite !andb_true_r. cbn [andb]. apply andb_true_iff. split; [apply andb_true_iff; split|].
   - eapply Forall_forallb; [|exact H2]. intros m. apply sortedb_complete.
   - eapply Forall_forallb; [|exact H3]. intros t. apply sortedb_complete.
   - eapply Forall_forallb; [|exact H4]. exact level_b_complete.
 Qed.
 
-Theorem tier_inv_b_decides s : tier_inv_b s = true <-> src_inv s /\ tier_inv (tiers_of s).
+Theorem tier_inv_b_decides s : tier_inv_b s = true <-> src_inv s /\ scan_inv (scan_srcs s).
 Proof. split; [apply tier_inv_b_sound | intros [H1 H2]; now apply tier_inv_b_complete]. Qed.
 
-(** The checker accepts the states of recency-ordered histories and rejects
-    the two refuted witnesses of Proofs/LsmWitness.v. *)
+(** The checker accepts the states of recency-ordered histories and of
+    out-of-order version writes, and rejects the ingest-ordering witness of
+    Proofs/LsmWitness.v. *)
 Example tier_inv_b_l0_tie : tier_inv_b (run (init 1) l0_tie) = true.
 Proof. vm_compute. reflexivity. Qed.
 Example tier_inv_b_ingest_tie : tier_inv_b (run (init 1) ingest_tie) = false.
 Proof. vm_compute. reflexivity. Qed.
-Example tier_inv_b_out_of_order : tier_inv_b (run (init 1) out_of_order) = false.
+Example tier_inv_b_out_of_order : tier_inv_b (run (init 1) out_of_order) = true.
 Proof. vm_compute. reflexivity. Qed.
